@@ -31,6 +31,7 @@ DoCloneGuard(s) == CloneGuard(s) /\ Log("CloneGuard", s, "")
 DoAcquireWrite(s) == AcquireWrite(s) /\ Log("AcquireWrite", s, "")
 DoCallSubscribe(s) == CallSubscribe(s) /\ Log("CallSubscribe", s, "")
 DoInsertSenders(s) == InsertSenders(s) /\ Log("InsertSenders", s, "")
+DoCancelStream(s) == CancelStream(s) /\ Log("CancelStream", s, "")
 DoActorStep == ActorStep /\ Log("ActorStep", "", "")
 DoFetchSub(h) == FetchSub(h) /\ Log("FetchSub", h, "")
 DoSendUnsub(h) == SendUnsub(h) /\ Log("SendUnsub", h, "")
@@ -42,6 +43,7 @@ MCNext ==
     \/ \E s \in Proc : DoAcquireWrite(s)
     \/ \E s \in Proc : DoCallSubscribe(s)
     \/ \E s \in Proc : DoInsertSenders(s)
+    \/ \E s \in Proc : DoCancelStream(s)
     \/ DoActorStep
     \/ \E h \in HandleId : DoFetchSub(h)
     \/ \E h \in HandleId : DoSendUnsub(h)
@@ -53,7 +55,7 @@ NoHistView == vars
 
 \* every stream() call returned, every handle dropped, mailbox worked off
 Done ==
-    /\ \A s \in Proc : pc[s] = "returned" /\ hst[s] = "dropped"
+    /\ \A s \in Proc : (pc[s] = "returned" /\ hst[s] = "dropped") \/ pc[s] = "cancelled"
     /\ \A h \in HandleId : hst[h] \in {"none", "dropped"}
     /\ mailbox = <<>>
 
